@@ -88,7 +88,15 @@ def replay(ctx, rec, all_shapes=True):
     if stateless(prog):
         # a Source over a container generates the same flow on every call
         variants += [(flat, True, "list", 2), (flat, True, "iter", 2)]
-    for shape, as_source, flowkind, calls in variants:
+        # ... and a Sequence of stateless elements computes the same composition on every run
+        variants += [(flat, False, "iter", 2), (flat, False, "list", 2)]
+    if any(st["t"] == "split" and any(b["t"] == "seqsum" for b in st["brs"]) for st in prog):
+        # regrouping inside a Split branch that is a Sequence object
+        variants = [v + (k,) for v in variants[:6] for k in range(4)]
+    else:
+        variants = [v + (0,) for v in variants]
+    for shape, as_source, flowkind, calls, brnest in variants:
+        fl.BRANCH_NEST[0] = brnest
         built, out = run_real(prog, n, pairs, shape, as_source, flowkind, calls)
         ctx.evaluations += 1
         if built != rec["built"]:
@@ -103,7 +111,9 @@ def replay(ctx, rec, all_shapes=True):
                                             "" if flowkind == "iter" else ":flow=" + flowkind,
                                             "" if calls == 1 else ":calls=%d" % calls),
                           {"prog": prog, "n": n, "pairs": pairs, "shape": shape, "source": as_source,
-                           "flowkind": flowkind, "calls": calls, "expected": exp_out, "observed": out})
+                           "flowkind": flowkind, "calls": calls, "branch_grouping": brnest,
+                           "expected": exp_out, "observed": out})
+    fl.BRANCH_NEST[0] = 0
     return ok
 
 
